@@ -1153,12 +1153,12 @@ func TestSettableRandom(t *testing.T) {
 			}
 			outer = wl
 		}
-		var pairs [][2]int
+		pairs := [][2]int{} // (an empty list, not null, if nobody is told)
 		outer.NotifyOnChange(func(v int) { pairs = append(pairs, [2]int{v, outer.EstimatedLimit()}) })
 		for _, v := range []int{7, 25, 25, 0, 3} {
 			st.SetLimit(v)
 		}
-		w.write(J{"ev": "Inside", "trace": n + wi, "i": 0, "algo": "settable", "wrap": wrap, "pairs": pairs})
+		w.write(J{"ev": "Inside", "trace": n + wi, "i": 0, "algo": "settable", "wrap": wrap, "pairs": pairs, "sets": 5})
 	}
 	// explicit sets issued at once by free-running goroutines (one each, behind a start barrier): whatever order they take
 	// effect in, once all have returned the last value delivered to the listener is the estimate. (Holding one set inside
